@@ -10,10 +10,11 @@
 import PolyVerif.Model.Ply
 import PolyVerif.Lemmas.Ply
 import PolyVerif.Lemmas.PlyCompose
+import PolyVerif.Lemmas.PlyNames
 
 namespace PolyVerif
 namespace C04
-open Ply PlyLemmas PlyCompose
+open Ply PlyLemmas PlyCompose PlyHeader
 
 variable {α : Type}
 
@@ -45,7 +46,8 @@ image (`quant`) of the original value.
 
 Guards, all explicit: binary format; `m.WF`; `writeBody` succeeded (implemented scalar types); a triangle mesh has no
 `TexCoord` (the unweld path is not covered); a point cloud's index buffer is `0..n-1` (the writer does not store it);
-fewer than 2³¹ vertices (indices are written as int32); the header's property names are pairwise distinct; and `ClaimOK`:
+fewer than 2³¹ vertices (indices are written as int32); and `ClaimOK` (that the header's property names are single
+words and pairwise distinct is no longer a hypothesis: `writeBody … = .ok` implies it, the writer rejects anything else):
 the claim stage, as witnesses — every reader `defaultReader` builds on this header is located where its names are, and
 every recognised writer has its reader, the last one with its key. -/
 theorem ply_roundtrip_binary_partial [BEq α] [LawfulBEq α] (c : Coding α) (cfg : WriterCfg) (m : MeshVal α) (body : Bytes)
@@ -53,10 +55,11 @@ theorem ply_roundtrip_binary_partial [BEq α] [LawfulBEq α] (c : Coding α) (cf
     (hnotex : ¬ (m.topo = .triangle ∧ hasTexCoord m = true))
     (hpoint : m.topo = .point → m.indices = (List.range m.attrLen).map Int.ofNat)
     (hsize : m.attrLen ≤ 2 ^ 31)
-    (hnd : ((headerProps (selectWriters cfg m)).map (·.1)).Nodup)
     (bl : List (Built × List Nat)) (hcl : ClaimOK cfg m bl) :
     ∃ back, readBody c defaultReader (writeHeader cfg m) body = .ok back ∧ RoundTrips c cfg m back = true := by
   obtain ⟨recs, hrecs, hread⟩ := readBody_writeBody_mesh c cfg m body hf hwf h hnotex hpoint hsize bl hcl
+  -- the header's property names are pairwise distinct: `Write` rejects anything else (writer.go:144-158)
+  have hnd := (names_of_writeBody_ok c cfg m body h).2
   exact ⟨_, hread, roundTrips_of_mesh c cfg m body hf hwf h hnotex hnd bl hcl recs hrecs⟩
 
 /-- the same with the claim-stage guard as a DECIDABLE certificate: `claimCheck cfg m` runs the claim function on the
@@ -67,11 +70,10 @@ theorem ply_roundtrip_binary_checked [BEq α] [LawfulBEq α] (c : Coding α) (cf
     (hnotex : ¬ (m.topo = .triangle ∧ hasTexCoord m = true))
     (hpoint : m.topo = .point → m.indices = (List.range m.attrLen).map Int.ofNat)
     (hsize : m.attrLen ≤ 2 ^ 31)
-    (hnd : ((headerProps (selectWriters cfg m)).map (·.1)).Nodup)
     (hcheck : (claimCheck cfg m).isSome = true) :
     ∃ back, readBody c defaultReader (writeHeader cfg m) body = .ok back ∧ RoundTrips c cfg m back = true := by
   obtain ⟨bl, hbl⟩ := Option.isSome_iff_exists.mp hcheck
-  exact ply_roundtrip_binary_partial c cfg m body hf hwf h hnotex hpoint hsize hnd bl (claimCheck_sound cfg m bl hbl)
+  exact ply_roundtrip_binary_partial c cfg m body hf hwf h hnotex hpoint hsize bl (claimCheck_sound cfg m bl hbl)
 
 /-! non-vacuity: a welded triangle mesh with positions, 8-bit colours and a user scalar, default writer, big-endian;
 and a point cloud written by a custom configuration (double positions under `px py pz`, renamed scalar) -/
@@ -86,7 +88,7 @@ example : ∃ back, readBody toyCoding defaultReader (writeHeader (defaultWriter
       ((writeBody toyCoding (defaultWriter .be) exMesh).toOption.getD []) = .ok back ∧
     RoundTrips toyCoding (defaultWriter .be) exMesh back = true :=
   ply_roundtrip_binary_checked toyCoding (defaultWriter .be) exMesh _ (by decide) (by decide) (by decide) (by decide)
-    (by decide) (by decide) (by decide) (by decide)
+    (by decide) (by decide) (by decide)
 
 def exCloud : MeshVal Nat :=
   ⟨.point, [0, 1], [⟨3, positionAttr, [[1, 2, 3], [4, 5, 6]]⟩, ⟨1, nm "q", [[5], [6]]⟩], none⟩
@@ -96,7 +98,14 @@ def exCfg : WriterCfg := ⟨.le, [⟨nm "q", [nm "q"], .int⟩, ⟨positionAttr,
 example : ∃ back, readBody toyCoding defaultReader (writeHeader exCfg exCloud)
       ((writeBody toyCoding exCfg exCloud).toOption.getD []) = .ok back ∧ RoundTrips toyCoding exCfg exCloud back = true :=
   ply_roundtrip_binary_checked toyCoding exCfg exCloud _ (by decide) (by decide) (by decide) (by decide)
-    (by decide) (by decide) (by decide) (by decide)
+    (by decide) (by decide) (by decide)
+
+/-- the rejected branch: a name with a blank, and a name used twice (user scalar `x` next to Position), make the write
+fail — nothing unreadable is produced -/
+example : writeBody toyCoding (defaultWriter .le)
+    ⟨.point, [0], [⟨3, positionAttr, [[1, 2, 3]]⟩, ⟨1, nm "my attr", [[5]]⟩], none⟩ = .error .err := by decide
+example : writeBody toyCoding (defaultWriter .le)
+    ⟨.point, [0], [⟨3, positionAttr, [[1, 2, 3]]⟩, ⟨1, nm "x", [[5]]⟩], none⟩ = .error .err := by decide
 
 end C04
 end PolyVerif
